@@ -431,8 +431,13 @@ func (x *Exec) callByContract(st *State, fr *Frame, fc *FuncContract, ci calleeI
 		return Val{}, true
 	}
 	if kind == "go" && !fc.Flags["go-sync"] {
-		// a spawned function under contract: its frame is applied, its postconditions are not assumed (it may not have finished)
-		x.havocAssigns(st, env, fc)
+		// a spawned function under contract: its declared frame is applied at the spawn point, its postconditions are
+		// not assumed (it may not have finished); without a declared frame its effects are not modelled
+		if fc.HasAssigns {
+			x.havocAssigns(st, env, fc)
+		} else {
+			x.noteAbstraction("effects of spawned " + calleeShort + " on shared state not modelled (no assigns clause)")
+		}
 		return Val{}, false
 	}
 	old := st.Clone()
